@@ -293,7 +293,8 @@ def r1_5_ep(ctx):
 PUSH = "Vec::<T, A>::push"
 SQ_PREDS = ("board::Square::is_empty", "board::Square::is_color", "board::Square::is_empty_or_color")
 MODES = ("AllMoves", "CapturesOnly")
-STATES = ("empty", "enemy", "other")     # other: an own piece or the boundary ring
+STATES = ("empty", "enemy", "own", "boundary")
+_SQ_DISCR = {}       # variant name -> discriminant of Square
 
 
 class Undecided(Exception):
@@ -306,6 +307,8 @@ _MODE_DISCR = {}     # variant name -> discriminant of MoveGenerationMode (fille
 def _note_modes(f):
     _MODE_DISCR.clear()
     _MODE_DISCR.update(f.enum_variants(MODE_TY))
+    _SQ_DISCR.clear()
+    _SQ_DISCR.update(f.enum_variants("board::Square"))
 
 
 def _truth(d, mode_local, piece, mode, state, is_sq):
@@ -318,6 +321,9 @@ def _truth(d, mode_local, piece, mode, state, is_sq):
     if k == "discr" and mode_local is not None and d[1] == ("arg", mode_local) and mode in _MODE_DISCR:
         # `match mode { AllMoves => .., CapturesOnly => .. }`, e.g. of an inlined predicate method on the mode
         return _MODE_DISCR[mode]
+    if k == "discr" and is_sq(d[1]) and _SQ_DISCR:
+        # `match square { Empty => .., Full(..) => .., _ => .. }`
+        return _SQ_DISCR["Empty"] if state == "empty" else _SQ_DISCR["Boundary"] if state == "boundary" else _SQ_DISCR["Full"]
     if k == "un" and d[1] == "Not":
         return not _truth(d[2], mode_local, piece, mode, state, is_sq)
     if k == "bin" and d[1] in ("BitOr", "BitAnd", "BitXor"):
@@ -337,9 +343,10 @@ def _truth(d, mode_local, piece, mode, state, is_sq):
         if name == "is_empty":
             return state == "empty"
         enemy = ("call", "board::PieceColor::opposite", (("field", ("arg", piece), "color"),), None)
-        if d[2][1] != enemy:
+        who = "enemy" if d[2][1] == enemy else "own" if d[2][1] == ("field", ("arg", piece), "color") else None
+        if who is None:
             raise Undecided(d)
-        return state == "enemy" if name == "is_color" else state in ("empty", "enemy")
+        return state == who if name == "is_color" else state in ("empty", who)
     raise Undecided(d)
 
 
@@ -408,7 +415,7 @@ def _ray_generator(ctx, f, kind, want_dirs):
     ctx.ob("%s:push:empty-squares-only-in-AllMoves" % short, ok_walk and at_pos, b.where(b.term_loc(h2)),
            "an empty square walked over is pushed (before stepping on) iff the mode is AllMoves: pushes in AllMoves %d, in CapturesOnly %d; pushed point is the walk position: %s" % (
                np_[("AllMoves", "empty")], np_[("CapturesOnly", "empty")], at_pos))
-    ok_cap = all(np_[(m, "enemy")] == 1 and np_[(m, "other")] == 0 for m in MODES)
+    ok_cap = all(np_[(m, "enemy")] == 1 and np_[(m, "own")] == 0 and np_[(m, "boundary")] == 0 for m in MODES)
     ctx.ob("%s:push:terminal-enemy-piece" % short, ok_cap and at_pos, b.where(b.term_loc(h2)),
            "the square the walk stopped on is pushed iff it holds an enemy piece (both modes): pushes %s" % {"%s/%s" % k: v for k, v in sorted(np_.items()) if k[1] != "empty"})
 
